@@ -27,6 +27,7 @@ var (
 	PartitionNotFoundErr     error = errors.New("Partition not found")
 	PartitionNotOnNodeErr    error = errors.New("Partition is not loaded on the node")
 	BatchRequestTooLargerErr error = errors.New("Batch request too large")
+	InvalidBatchItemErr      error = errors.New("Invalid batch item")
 )
 
 type partitionBatchResult map[uuid.UUID]error
@@ -241,6 +242,9 @@ func (this *Dataset) BatchInsert(ctx context.Context, items []*pb.BatchItem) (ma
 	if len(items) > maxBatchRequestSize {
 		return nil, BatchRequestTooLargerErr
 	}
+	if err := this.checkBatchItems(items, false); err != nil {
+		return nil, err
+	}
 
 	errors := make(map[uuid.UUID]error)
 	var checkedItems []*pb.BatchItem
@@ -276,6 +280,9 @@ func (this *Dataset) PartitionBatchInsert(ctx context.Context, partitionId uuid.
 	if err != nil {
 		return nil, err
 	}
+	if err := this.checkBatchItems(items, true); err != nil {
+		return nil, err
+	}
 
 	return partition.batchInsert(ctx, items)
 }
@@ -283,6 +290,9 @@ func (this *Dataset) PartitionBatchInsert(ctx context.Context, partitionId uuid.
 func (this *Dataset) BatchUpdate(ctx context.Context, items []*pb.BatchItem) (map[uuid.UUID]error, error) {
 	if len(items) > maxBatchRequestSize {
 		return nil, BatchRequestTooLargerErr
+	}
+	if err := this.checkBatchItems(items, false); err != nil {
+		return nil, err
 	}
 
 	errors := make(map[uuid.UUID]error)
@@ -319,6 +329,9 @@ func (this *Dataset) PartitionBatchUpdate(ctx context.Context, partitionId uuid.
 	if err != nil {
 		return nil, err
 	}
+	if err := this.checkBatchItems(items, true); err != nil {
+		return nil, err
+	}
 
 	return partition.batchUpdate(ctx, items)
 }
@@ -326,6 +339,9 @@ func (this *Dataset) PartitionBatchUpdate(ctx context.Context, partitionId uuid.
 func (this *Dataset) BatchRemove(ctx context.Context, items []*pb.BatchItem) (map[uuid.UUID]error, error) {
 	if len(items) > maxBatchRequestSize {
 		return nil, BatchRequestTooLargerErr
+	}
+	if err := this.checkBatchItems(items, false); err != nil {
+		return nil, err
 	}
 
 	return this.partitionsBatchRequest(
@@ -342,6 +358,9 @@ func (this *Dataset) BatchRemove(ctx context.Context, items []*pb.BatchItem) (ma
 func (this *Dataset) PartitionBatchRemove(ctx context.Context, partitionId uuid.UUID, items []*pb.BatchItem) (map[uuid.UUID]error, error) {
 	partition, err := this.getPartition(partitionId)
 	if err != nil {
+		return nil, err
+	}
+	if err := this.checkBatchItems(items, false); err != nil {
 		return nil, err
 	}
 
@@ -385,6 +404,10 @@ func (this *Dataset) Search(ctx context.Context, query math.Vector, k uint) (ind
 }
 
 func (this *Dataset) SearchPartitions(ctx context.Context, partitionIds []uuid.UUID, query math.Vector, k uint) (index.SearchResult, error) {
+	if err := this.checkDimension(&query); err != nil {
+		return nil, err
+	}
+
 	var err error
 	partitions := make([]*partition, len(partitionIds))
 	for i, partitionId := range partitionIds {
@@ -438,6 +461,26 @@ func (this *Dataset) getPartitionForId(id uuid.UUID) *partition {
 	defer this.partitionsMu.RUnlock()
 
 	return this.partitions[utils.UuidMod(id, uint64(this.Meta().GetPartitionCount()))]
+}
+
+// Requests that cannot be applied must be rejected before they are proposed: an
+// entry that fails in the apply loop fails on every replica and on every replay.
+func (this *Dataset) checkBatchItems(items []*pb.BatchItem, withValues bool) error {
+	for _, item := range items {
+		if item == nil {
+			return InvalidBatchItemErr
+		}
+		if _, err := uuid.FromBytes(item.GetId()); err != nil {
+			return err
+		}
+		if withValues {
+			value := math.Vector(item.GetValue())
+			if err := this.checkDimension(&value); err != nil {
+				return err
+			}
+		}
+	}
+	return nil
 }
 
 func (this *Dataset) checkDimension(value *math.Vector) error {
